@@ -10,7 +10,8 @@ use redis_sim::replication::state::{CrdtValue, ReplicatedValue, ReplicationDelta
 use redis_sim::replication::ConsistencyLevel;
 use redis_sim::streaming::checkpoint::{CheckpointError, CheckpointReader, CheckpointWriter};
 use redis_sim::streaming::segment::{Compression, SegmentError, SegmentReader, SegmentWriter};
-use redis_sim::streaming::wal::WalEntry;
+use redis_sim::streaming::wal::{WalEntry, WalRotator};
+use redis_sim::streaming::wal_store::{InMemoryWalStore, WalStore};
 use serde_json::{json, Value};
 use std::collections::{BTreeMap, HashMap};
 use std::panic::{catch_unwind, AssertUnwindSafe};
@@ -18,6 +19,7 @@ use vharness::util::*;
 
 pub const HEADER: &str = "From RV Require Import Corr.C14.\nLocal Open Scope string_scope.\nLocal Open Scope N_scope.\nLocal Open Scope list_scope.";
 const KNOWN_WAL: &str = "C14-wal-entry-header-unprotected";
+const KNOWN_ZERO: &str = "C14-wal-zero-header-is-an-entry";
 
 // ---------- canonical text of a value (copied from c07.rs: sets and maps sorted) ----------
 fn num_map(v: &Value) -> Vec<(u64, u64)> {
@@ -213,7 +215,16 @@ fn chk_kind(e: &CheckpointError) -> &'static str {
 }
 
 #[derive(Clone, Debug)]
-enum Mut { None, Trunc(usize), Flip(usize, u32), Patch(usize, Vec<u8>) }
+enum Mut {
+    None,
+    Trunc(usize),
+    Flip(usize, u32),
+    Patch(usize, Vec<u8>),
+    /// `len` bytes from `off` set to one value (zero-filled / 0xFF-filled range), clipped
+    Fill(usize, usize, u8),
+    /// several independent sites (label, parts); none of the parts recomputes a checksum
+    Seq(&'static str, Vec<Mut>),
+}
 impl Mut {
     fn term(&self) -> String {
         match self {
@@ -221,6 +232,8 @@ impl Mut {
             Mut::Trunc(k) => format!("MTrunc {}", k),
             Mut::Flip(b, i) => format!("MFlip {} {}", b, i),
             Mut::Patch(o, d) => format!("MPatch {} {}", o, chex(d)),
+            Mut::Fill(o, n, v) => format!("MFill {} {} {}", o, n, v),
+            Mut::Seq(_, ms) => format!("MSeq {}", clist(ms.iter(), |m| m.term())),
         }
     }
     fn apply(&self, img: &[u8]) -> Vec<u8> {
@@ -230,12 +243,95 @@ impl Mut {
             Mut::Trunc(k) => d.truncate(*k),
             Mut::Flip(b, i) => { if *b < d.len() { d[*b] ^= 1u8 << i; } }
             Mut::Patch(o, p) => { for (j, x) in p.iter().enumerate() { if o + j < d.len() { d[o + j] = *x; } } }
+            Mut::Fill(o, n, v) => { for j in *o..(*o + *n).min(d.len()) { d[j] = *v; } }
+            Mut::Seq(_, ms) => { for m in ms { d = m.apply(&d); } }
         }
         d
     }
     fn label(&self) -> &'static str {
-        match self { Mut::None => "pristine", Mut::Trunc(_) => "trunc", Mut::Flip(..) => "flip", Mut::Patch(..) => "patch" }
+        match self {
+            Mut::None => "pristine", Mut::Trunc(_) => "trunc", Mut::Flip(..) => "flip", Mut::Patch(..) => "patch",
+            Mut::Fill(..) => "fill", Mut::Seq(l, _) => l,
+        }
     }
+}
+/// Field-aware and multi-site damage (nothing here recomputes a checksum):
+/// every structural field set to 0 / 0xFF.. / a neighbouring value (integer +-1, another layout's
+/// magic), alone and together with 1-3 independent bit flips in the data region; zero- and
+/// 0xFF-filled ranges (aligned, unaligned, and "tail filled"), alone and with data flips;
+/// swapped and duplicated blocks.
+fn structured(rng: &mut Rng, img: &[u8], fields: &[(usize, usize)], data: (usize, usize)) -> Vec<Mut> {
+    let len = img.len();
+    let mut v = Vec::new();
+    let flips = |rng: &mut Rng| -> Vec<Mut> {
+        if data.1 <= data.0 { return vec![]; }
+        (0..rng.gen_range(1..4)).map(|_| Mut::Flip(rng.gen_range(data.0..data.1), rng.gen_range(0..8))).collect()
+    };
+    let with_flips = |rng: &mut Rng, label: &'static str, m: Mut| -> Mut {
+        let mut parts = vec![m];
+        parts.extend(flips(rng));
+        Mut::Seq(label, parts)
+    };
+    const MAGICS: [&[u8; 4]; 5] = [b"RSEG", b"GESR", b"RCHK", b"RWAL", b"\0\0\0\0"];
+    for &(off, n) in fields {
+        if off + n > len { continue; }
+        let cur = &img[off..off + n];
+        let mut vals: Vec<Vec<u8>> = vec![vec![0u8; n], vec![0xFFu8; n]];
+        if n <= 8 {
+            let mut x = [0u8; 8];
+            x[..n].copy_from_slice(cur);
+            let val = u64::from_le_bytes(x);
+            for nb in [val.wrapping_add(1), val.wrapping_sub(1)] {
+                vals.push(nb.to_le_bytes()[..n].to_vec());
+            }
+        }
+        if n == 4 && cur.iter().all(|c| c.is_ascii_uppercase()) {
+            vals.push(MAGICS[rng.gen_range(0..4)].to_vec());
+        }
+        for val in vals {
+            if val == cur { continue; } // not a damage
+            v.push(Mut::Seq("field", vec![Mut::Patch(off, val.clone())]));
+            if data.1 > data.0 {
+                v.push(with_flips(rng, "field+flips", Mut::Patch(off, val)));
+            }
+        }
+    }
+    if len > 0 {
+        // sector-like fills
+        for &fillv in &[0u8, 0xFF] {
+            for &sz in &[8usize, 16, 32, 64] {
+                let aligned = (rng.gen_range(0..len) / sz) * sz;
+                v.push(Mut::Fill(aligned, sz, fillv));
+                v.push(Mut::Fill(rng.gen_range(0..len), sz, fillv));
+            }
+            for &tail in &[4usize, 16, 20, 24, 32, 64] {
+                if tail <= len {
+                    v.push(Mut::Seq("tail-fill", vec![Mut::Fill(len - tail, tail, fillv)]));
+                    if data.1 > data.0 {
+                        v.push(with_flips(rng, "tail-fill+flips", Mut::Fill(len - tail, tail, fillv)));
+                    }
+                }
+            }
+            if data.1 > data.0 {
+                let sz = [8usize, 16, 32][rng.gen_range(0..3)];
+                let at = rng.gen_range(0..len);
+                v.push(with_flips(rng, "fill+flips", Mut::Fill(at, sz, fillv)));
+            }
+        }
+        // swapped / duplicated blocks (lowered to patches computed from the original bytes)
+        for _ in 0..4 {
+            let sz = [4usize, 8, 16, 32][rng.gen_range(0..4)];
+            if len < 2 * sz { continue; }
+            let a = rng.gen_range(0..=len - sz);
+            let b = rng.gen_range(0..=len - sz);
+            if a == b || img[a..a + sz] == img[b..b + sz] { continue; }
+            v.push(Mut::Seq("dup-block", vec![Mut::Patch(b, img[a..a + sz].to_vec())]));
+            if a + sz <= b || b + sz <= a {
+                v.push(Mut::Seq("swap-blocks", vec![Mut::Patch(b, img[a..a + sz].to_vec()), Mut::Patch(a, img[b..b + sz].to_vec())]));
+            }
+        }
+    }
+    v
 }
 /// every truncation, every bit of the given fixed regions, sampled flips and patches elsewhere
 fn mutations(rng: &mut Rng, len: usize, regions: &[(usize, usize)], n_flips: usize, n_patch: usize) -> Vec<Mut> {
@@ -337,6 +433,7 @@ fn main() {
     let n_flips = args.get("flips", 24) as usize;
     let n_patch = args.get("patch", 8) as usize;
     let adversarial_every = args.get("adversarial", 8);
+    let huge = args.get("huge", 0) == 1;
     out.nontrivial_rule = "a case = a batch of deltas (values of every CRDT kind produced by three replicas exchanging updates; binary, empty and 300-byte strings; unusual keys) encoded by the real WalEntry / SegmentWriter / CheckpointWriter / GossipMessage; probes = every truncation length of every image, every bit of the fixed header/footer regions, sampled flips and patches elsewhere; every 8th case additionally holds a batch whose payload imitates a segment footer; non-trivial = batch of >= 2 deltas; distinct by canonical text of the batch".into();
     let range: Vec<u64> = match args.only { Some(i) => vec![i], None => (0..args.n).collect() };
     for i in range {
@@ -376,7 +473,10 @@ fn main() {
                 _ => viol(&mut out, &mut seen, i, "WAL entry does not round-trip", json!({"delta": canons[j], "ts": ts})),
             }
             let mut probes = Vec::new();
-            for m in mutations(&mut rng, img.len(), &[(0, 16)], n_flips, n_patch) {
+            let mut ms = mutations(&mut rng, img.len(), &[(0, 16)], n_flips, n_patch);
+            // entry header fields: length, timestamp, checksum; data = the payload
+            ms.extend(structured(&mut rng, &img, &[(0, 4), (4, 8), (12, 4)], (16, img.len())));
+            for m in ms {
                 let bad = m.apply(&img);
                 out.count(&format!("wal:{}", m.label()));
                 out.impl_checks += 1;
@@ -391,7 +491,11 @@ fn main() {
                             // accepted although the bytes changed and the decoded entry differs
                             let in_class = bad.len() == img.len() && (0..img.len()).filter(|&p| bad[p] != img[p]).all(|p| p < 12);
                             let d = json!({"mutation": m.term(), "written_ts": ts, "decoded_ts": e2.timestamp, "decoded_len": e2.data.len()});
-                            if in_class { out.known(KNOWN_WAL, i, d); } else { viol(&mut out, &mut seen, i, "damaged WAL entry decoded into different data", d); }
+                            // a header with length 0 and checksum 0 (= CRC-32 of no data) is a well-formed entry, e.g. 16 zero bytes
+                            let zero_header = bad.len() >= 16 && bad[..4].iter().all(|&b| b == 0) && bad[12..16].iter().all(|&b| b == 0) && e2.data.is_empty() && used == 16;
+                            if in_class { out.known(KNOWN_WAL, i, d); }
+                            else if zero_header { out.known(KNOWN_ZERO, i, d); }
+                            else { viol(&mut out, &mut seen, i, "damaged WAL entry decoded into different data", d); }
                         }
                         format!("WSome {} {} {} {}", idx, e2.timestamp, e2.checksum, used)
                     }
@@ -414,7 +518,16 @@ fn main() {
             let mut probes = Vec::new();
             let hf = [(0usize, 40usize), (img.len() - 24, img.len())];
             let regions: &[(usize, usize)] = if i % 2 == 0 { &hf } else { &[] };
-            for m in mutations(&mut rng, img.len(), regions, n_flips, n_patch) {
+            let mut ms = mutations(&mut rng, img.len(), regions, n_flips, n_patch);
+            {
+                // header: magic, version, flags, count, min, max, header checksum, padding;
+                // first record's length prefix; footer: data checksum, two sizes, magic
+                let l = img.len();
+                let fields = [(0usize, 4usize), (4, 1), (5, 1), (6, 4), (10, 8), (18, 8), (26, 4), (30, 10), (40, 4),
+                              (l - 24, 4), (l - 20, 8), (l - 12, 8), (l - 4, 4)];
+                ms.extend(structured(&mut rng, &img, &fields, (44.min(l - 24), l - 24)));
+            }
+            for m in ms {
                 let bad = m.apply(&img);
                 out.count(&format!("segment:{}", m.label()));
                 out.impl_checks += 1;
@@ -467,7 +580,16 @@ fn main() {
             let mut probes = Vec::new();
             let hf = [(0usize, 52usize), (img.len() - 16, img.len())];
             let regions: &[(usize, usize)] = if i % 2 == 1 { &hf } else { &[] };
-            for m in mutations(&mut rng, img.len(), regions, n_flips, n_patch) {
+            let mut ms = mutations(&mut rng, img.len(), regions, n_flips, n_patch);
+            {
+                // header: magic, version, flags, pad, key count, timestamp, last segment id, reserved,
+                // header checksum; data length; footer: data checksum, data size, footer checksum
+                let l = img.len();
+                let fields = [(0usize, 4usize), (4, 1), (5, 1), (6, 2), (8, 8), (16, 8), (24, 8), (32, 12), (44, 4), (48, 4),
+                              (l - 16, 4), (l - 12, 8), (l - 4, 4)];
+                ms.extend(structured(&mut rng, &img, &fields, (52, l - 16)));
+            }
+            for m in ms {
                 let bad = m.apply(&img);
                 out.count(&format!("checkpoint:{}", m.label()));
                 out.impl_checks += 2;
@@ -549,7 +671,117 @@ fn main() {
             }
         }
 
-        let term = format!("(K {} {} {} {})", deltas_t, clist(wal_t.iter(), |x| x.clone()), clist(seg_t.iter(), |x| x.clone()), clist(chk_t.iter(), |x| x.clone()));
+        // ---- 5. WAL round trip through the rotator: append*, sync, then a FRESH WalRotator (same,
+        //         smaller and larger max_file_size) must return every appended update unchanged
+        let mut rot_t = Vec::new();
+        {
+            let recover = |store: &InMemoryWalStore, max_r: usize| -> Result<Result<Vec<ReplicationDelta>, String>, ()> {
+                catch_unwind(AssertUnwindSafe(|| {
+                    let r = WalRotator::new(store.clone(), max_r).map_err(|e| e.to_string())?;
+                    r.recover_entries_after(0).map_err(|e| e.to_string())
+                })).map_err(|_| ())
+            };
+            // (a) the case's own deltas, small thresholds; also printed for the model when small
+            {
+                let max_w = [17usize, 40, 64, 100, 150, 300][rng.gen_range(0..6)];
+                let store = InMemoryWalStore::new();
+                let mut rot = WalRotator::new(store.clone(), max_w).unwrap();
+                for d in deltas.iter().take(adv_start) {
+                    rot.append(&WalEntry::from_delta(d, d.value.timestamp.time).unwrap()).unwrap();
+                }
+                rot.sync().unwrap();
+                drop(rot);
+                let want: Vec<u64> = (0..adv_start as u64).collect();
+                let mut first: Option<String> = None;
+                for max_r in [max_w, 17, 1 << 20] {
+                    out.impl_checks += 1;
+                    out.count("rotator:table-deltas");
+                    let (idx, t) = match recover(&store, max_r) {
+                        Err(()) => { viol(&mut out, &mut seen, i, "WAL recovery through a fresh WalRotator panicked", json!({"written_with": max_w, "read_with": max_r})); (vec![], "None".to_string()) }
+                        Ok(Err(e)) => { viol(&mut out, &mut seen, i, "WAL recovery through a fresh WalRotator failed", json!({"written_with": max_w, "read_with": max_r, "err": e})); (vec![], "None".to_string()) }
+                        Ok(Ok(ds)) => { let idx: Vec<u64> = ds.iter().map(|d| find(d)).collect(); let t = format!("(Some {})", clist(idx.iter(), |x| x.to_string())); (idx, t) }
+                    };
+                    if idx != want {
+                        viol(&mut out, &mut seen, i, "an appended and synced update does not survive the WAL round trip through WalRotator (append, sync, fresh rotator, recover_entries_after(0))",
+                             json!({"written_with_max_file_size": max_w, "read_with_max_file_size": max_r, "appended": want, "recovered": idx,
+                                    "payload_sizes": payloads.iter().take(adv_start).map(|p| p.len()).collect::<Vec<_>>()}));
+                    }
+                    if first.is_none() { first = Some(t); }
+                }
+                let names = store.list().unwrap();
+                // a filled region after the last entry (torn / preallocated tail) must end recovery of
+                // that file, not add or lose updates
+                if let Some(last) = names.last() {
+                    let base = store.get_file_data(last).unwrap();
+                    for (fillv, n) in [(0xFFu8, 16usize), (0xFF, 40), (0u8, 7), (0, 16), (0, 40)] {
+                        let mut d = base.clone();
+                        d.extend(std::iter::repeat(fillv).take(n));
+                        store.set_file_data(last, d);
+                        out.impl_checks += 1;
+                        out.count("rotator:filled-tail");
+                        let got: Option<Vec<u64>> = match recover(&store, max_w) { Ok(Ok(ds)) => Some(ds.iter().map(|d| find(d)).collect()), _ => None };
+                        if got.as_ref() != Some(&want) {
+                            let d = json!({"file": last, "tail": format!("{} x 0x{:02x}", n, fillv), "appended": want, "recovered": got});
+                            if fillv == 0 && n >= 16 { out.known(KNOWN_ZERO, i, d); }
+                            else { viol(&mut out, &mut seen, i, "a filled region after the last WAL entry changes what recovery returns", d); }
+                        }
+                    }
+                    store.set_file_data(last, base);
+                }
+                let total: usize = names.iter().map(|n| store.get_file_data(n).unwrap().len()).sum();
+                if total <= 1600 {
+                    let files_t = clist(names.iter(), |n| format!("({}, {})", chex(n.as_bytes()), chex(&store.get_file_data(n).unwrap())));
+                    rot_t.push(format!("RT {} {}", files_t, first.unwrap()));
+                    out.count("rotator:model-compared");
+                }
+            }
+            // (b) payload sizes from 0 to well above the threshold (implementation side only)
+            {
+                let ths: &[usize] = if huge { &[17, 64, 300, 4096, 65536] } else { &[17, 64, 300, 4096, 32768] };
+                let mib = huge && i % 16 == 3; // thorough tier: every 16th case works at the 1 MiB scale
+                let t = if mib { 1 << 20 } else { ths[rng.gen_range(0..ths.len())] };
+                let mut sizes: Vec<usize> = if mib { vec![0, t - 17, t + 1, (1 << 20) + rng.gen_range(2..4096)] }
+                    else { vec![0, 1, t.saturating_sub(90), t.saturating_sub(17), t, t + 1, 2 * t + 3, rng.gen_range(0..=3 * t)] };
+                if huge && i % 16 == 11 { sizes.push((1 << 20) + rng.gen_range(0..4096)); } // >= 1 MiB under a small threshold
+                // a small update after each big one, so that rotation right after an oversized entry is covered
+                let mut ds: Vec<ReplicationDelta> = Vec::new();
+                for (j, &sz) in sizes.iter().enumerate() {
+                    let val: Vec<u8> = (0..sz).map(|x| (x as u8).wrapping_mul(31).wrapping_add(j as u8)).collect();
+                    ds.push(lww_delta(format!("big{}", j), val, 10 + j as u64));
+                    ds.push(lww_delta(format!("small{}", j), vec![j as u8], 100 + j as u64));
+                }
+                let store = InMemoryWalStore::new();
+                let mut rot = WalRotator::new(store.clone(), t).unwrap();
+                for d in &ds { rot.append(&WalEntry::from_delta(d, d.value.timestamp.time).unwrap()).unwrap(); }
+                rot.sync().unwrap();
+                drop(rot);
+                // cheap structural fingerprint (values may be several MiB): key, value bytes, stamp, flags
+                let fp = |d: &ReplicationDelta| -> (String, Option<Vec<u8>>, u64, u64, bool, Option<u64>, u64) {
+                    (d.key.clone(), d.value.get().map(|v| v.as_bytes().to_vec()), d.value.timestamp.time, d.value.timestamp.replica_id.0,
+                     d.value.is_tombstone(), d.value.expiry_ms, d.source_replica.0)
+                };
+                let want: Vec<_> = ds.iter().map(fp).collect();
+                for max_r in [t, 17.max(t / 4), 4 * t] {
+                    out.impl_checks += 1;
+                    out.count(&format!("rotator:sized:threshold<={}", if t <= 300 { "300" } else if t <= 65536 { "64Ki" } else { "1Mi" }));
+                    match recover(&store, max_r) {
+                        Err(()) => viol(&mut out, &mut seen, i, "WAL recovery through a fresh WalRotator panicked", json!({"written_with": t, "read_with": max_r})),
+                        Ok(Err(e)) => viol(&mut out, &mut seen, i, "WAL recovery through a fresh WalRotator failed", json!({"written_with": t, "read_with": max_r, "err": e})),
+                        Ok(Ok(back)) => {
+                            let got: Vec<_> = back.iter().map(fp).collect();
+                            if got != want {
+                                let lost: Vec<usize> = (0..ds.len()).filter(|&j| !got.contains(&want[j])).map(|j| sizes[j / 2] * (1 - j % 2) + (j % 2)).collect();
+                                viol(&mut out, &mut seen, i, "an appended and synced update does not survive the WAL round trip through WalRotator (append, sync, fresh rotator, recover_entries_after(0))",
+                                     json!({"written_with_max_file_size": t, "read_with_max_file_size": max_r, "appended": ds.len(), "recovered": back.len(),
+                                            "value_sizes_appended": sizes, "value_sizes_of_lost_updates": lost}));
+                            }
+                        }
+                    }
+                }
+            }
+        }
+
+        let term = format!("(K {} {} {} {} {})", deltas_t, clist(wal_t.iter(), |x| x.clone()), clist(seg_t.iter(), |x| x.clone()), clist(chk_t.iter(), |x| x.clone()), clist(rot_t.iter(), |x| x.clone()));
         out.count(&format!("batch:{}", deltas.len().min(10)));
         out.sample(json!({"deltas": canons.iter().map(|c| c.chars().take(160).collect::<String>()).collect::<Vec<_>>()}));
         if args.only.is_some() {
